@@ -304,6 +304,9 @@ func (c *conn) sendTo(buf []byte, addr unix.Sockaddr) (n int, err error) {
 		}
 	}()
 
+	if c.remote == nil && !c.opened { // closed connected UDP socket of client, the fd is no longer ours
+		return 0, net.ErrClosed
+	}
 	if addr != nil {
 		return len(buf), unix.Sendto(c.fd, buf, 0, addr)
 	}
